@@ -9,8 +9,10 @@ import (
 	"encoding/json"
 	"errors"
 	"fmt"
+	"os"
 	"runtime"
 	"sort"
+	"strconv"
 	"sync"
 	"sync/atomic"
 	"testing"
@@ -872,12 +874,19 @@ func TestExec(t *testing.T) {
 	scheds := drv.ReadSchedules(t)
 	tr := drv.NewTracer(t)
 	defer tr.Close()
+	rep, _ := strconv.Atoi(os.Getenv("C06_REPEAT")) // concurrent schedules are executed this often (default once)
 	blocked := 0
 	for i, s := range scheds {
-		r := runOne(t, tr, i, s)
-		blocked += r.blocked
-		if r.hung.Load() || blocked >= maxBlocked {
-			break // a hung or repeatedly blocking component: stop here, every further schedule would wait again
+		n := 1
+		if len(s) > 0 && drv.Str(s[0]["op"]) == "Conc" && rep > 1 {
+			n = rep
+		}
+		for k := 0; k < n; k++ {
+			r := runOne(t, tr, i, s)
+			blocked += r.blocked
+			if r.hung.Load() || blocked >= maxBlocked {
+				return // a hung or repeatedly blocking component: stop here, every further schedule would wait again
+			}
 		}
 	}
 }
